@@ -168,8 +168,8 @@ class Builder:
         if k[0] == 'vec':
             g = 'verif_fk%d' % len(ghost)
             ghost.append('unsigned long %s;' % g)
-            return '(%s.size == %s.size && (%s >= %s.size || %s)))' % (
-                a, b, g, a, self.eq(k[1], '%s.data[%s]' % (a, g), '%s.data[%s]' % (b, g), ghost)[:-1] + ')')
+            return '(%s.size == %s.size && (%s >= %s.size || %s))' % (
+                a, b, g, a, self.eq(k[1], '%s.data[%s]' % (a, g), '%s.data[%s]' % (b, g), ghost))
         if k[0] == 'arr':
             return '(' + ' && '.join(self.eq(k[1], '%s.a[%d]' % (a, i), '%s.a[%d]' % (b, i), ghost)
                                      for i in range(k[2])) + ')'
